@@ -3459,9 +3459,14 @@ Boolean PushSymbol(tStrComp const* pSymName, tStrComp const* pStackName) {
         LStack = NStack;
     }
 
-    Elem             = (PSymbolStackEntry)malloc(sizeof(TSymbolStackEntry));
-    Elem->Next       = LStack->Contents;
-    Elem->Contents   = pSrc->SymWert;
+    /* the stack element needs a copy of its own: a string value is heap
+       memory that belongs to the symbol and is released when the symbol gets
+       a new value */
+
+    Elem       = (PSymbolStackEntry)malloc(sizeof(TSymbolStackEntry));
+    Elem->Next = LStack->Contents;
+    as_tempres_ini(&Elem->Contents);
+    as_tempres_copy(&Elem->Contents, &pSrc->SymWert);
     LStack->Contents = Elem;
 
     return True;
@@ -3507,8 +3512,9 @@ Boolean PopSymbol(tStrComp const* pSymName, tStrComp const* pStackName) {
         return False;
     }
 
-    Elem             = LStack->Contents;
-    pDest->SymWert   = Elem->Contents;
+    Elem = LStack->Contents;
+    as_tempres_copy(&pDest->SymWert, &Elem->Contents);
+    as_tempres_free(&Elem->Contents);
     LStack->Contents = Elem->Next;
     if (!LStack->Contents) {
         if (!PStack) {
@@ -3536,6 +3542,7 @@ void ClearStacks(void) {
         while (Act->Contents) {
             Elem          = Act->Contents;
             Act->Contents = Elem->Next;
+            as_tempres_free(&Elem->Contents);
             free(Elem);
             z++;
         }
